@@ -537,6 +537,8 @@ def alphabet_oracle(d, mod):
     for stem, fn, octs in mod.get("alpha_sites", []):
         e = c08_alpha.parse_emitted(os.path.join(d, stem + ".c"), fn)
         got = admitted_units(e)
+        if got is not None and e.get("unit") == "1":
+            got.discard(256)                      # the unit is an octet: nothing above 0xff exists
         prob = None
         if e["mode"] in ("UTF8LEN", "NONE"):
             pass                                  # no alphabet code emitted (C08's ground: C08-utf8-from-unchecked)
